@@ -157,3 +157,60 @@ PI = Contract("C04", INIT, "process_iter", env=ENV,
               replay="c04:history", note="bounded: exhaustive enumeration of small process-table histories")
 BOUNDED_CONTRACTS = [PI]
 BOUNDED = [bounded_sweep(PI, "c04:history", quick=2500, thorough=60000)]
+
+
+# --- BSD: pid_exists() per flavour (the module defines it three ways under `if NETBSD: ... elif OPENBSD: ... else:`) ---------
+# kill(pid, 0) alone is not the process table there: it succeeds for thread IDs on OpenBSD and fails for zombies on NetBSD.
+import ast as _ast   # noqa: E402
+
+BSD_PY = "psutil/_psbsd.py"
+_ALL_FLAGS = ("LINUX", "WINDOWS", "MACOS", "OSX", "FREEBSD", "OPENBSD", "NETBSD", "BSD", "SUNOS", "AIX", "POSIX")
+
+
+def in_world(**flags):
+    """select, among conditional module-level definitions, the one in force under these platform flags"""
+    env = {f: False for f in _ALL_FLAGS}
+    env.update(flags)
+
+    def pick(node, guards):
+        for test, pol in guards:
+            try:
+                v = eval(compile(_ast.Expression(test), "<guard>", "eval"), {"__builtins__": {}}, dict(env))
+            except Exception:
+                return False
+            if bool(v) != pol:
+                return False
+        return True
+    return pick
+
+
+class _Listing(list):
+    def __init__(self, has):
+        super().__init__()
+        self.has = has
+
+    def vc_contains(self, it, x):
+        return self.has
+
+
+def setup_bsd_pid_exists(it, cfg):
+    pid = it.fresh("pid", "Int")
+    kill_ok = it.fresh("kill0_succeeds", "Bool")      # what _psposix.pid_exists (kill(pid, 0)) answers
+    listed = it.fresh("pid_listed", "Bool")           # whether the process table lists it
+    # what is known about kill(pid, 0) there (the comments in the module): OpenBSD - every listed process answers, and so do
+    # thread IDs; NetBSD - whoever answers is listed, zombies are listed without answering
+    it.assume(Implies(listed, kill_ok) if cfg["flavour"] == "OPENBSD" else Implies(kill_ok, listed))
+    it.env_over["_psposix.pid_exists"] = EnvFunc("pid_exists", lambda it2, p: kill_ok)
+    it.env_over["_psbsd.pids"] = EnvFunc("pids", lambda it2: _Listing(listed))
+    return {"args": {"pid": pid}, "spec": {"kill_ok": kill_ok, "listed": listed}, "values": [pid, kill_ok, listed]}
+
+
+for _flav, _post in (("OPENBSD", "result == listed"),      # a thread ID answers kill() but is not listed: False
+                     ("NETBSD", "result == listed")):       # a zombie is listed but does not answer kill(): True
+    REGISTRY.add(Contract(
+        "C04", BSD_PY, "pid_exists", which=in_world(**{_flav: True, "BSD": True, "POSIX": True}),
+        name=f"_psbsd.pid_exists[{_flav}]", setup=setup_bsd_pid_exists, configs=[{"flavour": _flav}],
+        env=dict(BASE_ENV, **{f: (f in (_flav, "BSD", "POSIX")) for f in _ALL_FLAGS}),
+        ensures=[_post], raises={}, canaries=["result == True"], replay=None,
+        note="True exactly for listed processes: kill(pid, 0) is cross-checked against the process table in the direction "
+             "that flavour needs"))
